@@ -42,6 +42,7 @@ def run(ctx):
         r = chk.rule("anchors", "range-spec parser and range-header parser exist", floor=2)
         r.violate("C03|anchors", "range parsers not found (%s / %s)" % (SPEC_PARSER, HEADER_PARSER))
         return chk.finish()
+    sp, hp = ctx.inl(sp), ctx.inl(hp)       # the bound checks / the 416 constructor may be private helpers (A11)
     cfg = cfg_of(sp)
     du = du_of(sp)
 
@@ -60,11 +61,11 @@ def run(ctx):
                 true_e = (sb, st["otherwise"]) if not neg else (sb, tb)
         checks[sb] = (d, true_e)
     want = {"end<=length": ("Gt", "range.end", "filelength"), "start<=length": ("Gt", "range.start", "filelength"), "start<=end": ("Gt", "range.start", "range.end")}
-    found = {}
+    found = {}          # label -> [(switch block, true edge)]: a helper inlined at several call sites gives several copies
     for sb, (d, te) in checks.items():
         for label, w in want.items():
             if d == w:
-                found[label] = (sb, te)
+                found.setdefault(label, []).append((sb, te))
     r1 = chk.rule("R1-bounds-checked-after-every-definition", "every assignment to range.start / range.end is followed, on every path to the loop back-edge or the Ok return, by the checks end<=length, start<=length, start<=end, whose failing edge returns Err", floor=4)
     for label, w in want.items():
         ok = label in found
@@ -72,9 +73,15 @@ def run(ctx):
         if not ok:
             r1.violate("C03|R1|missing|%s" % label, "%s has no check %s (%s %s %s -> Err): a range reaching outside the file, or reversed, would be read" % (SPEC_PARSER, label, w[1], {"Gt": ">"}.get(w[0], w[0]), w[2]), sp.file, sp.span["line"], sp.def_)
     # failing edge returns Err
-    for label, (sb, te) in found.items():
-        region = [b for b in cfg.reachable_from(te[1]) if cfg.edge_dominates(te, b)]
-        ok = any(s["k"] == "assign" and s["rv"]["k"] == "aggregate" and s["rv"].get("variant") == "Err" and s["place"]["l"] == 0 for b in region for s in cfg.blocks[b]["stmts"])
+    for label, lst in found.items():
+      for sb, te in lst:
+        # on the feasible paths after the failing edge an Err is built and the function returns without building Ok
+        region = L.feasible_reach(cfg, te)
+        if region is None:
+            region = cfg.reachable_from(te[1])
+        builds_err = any(s["k"] == "assign" and s["rv"]["k"] == "aggregate" and s["rv"].get("variant") == "Err" for b in region for s in cfg.blocks[b]["stmts"])
+        builds_ok = any(s["k"] == "assign" and s["rv"]["k"] == "aggregate" and s["rv"].get("variant") == "Ok" and s["place"]["l"] == 0 and not s["place"]["p"] for b in region for s in cfg.blocks[b]["stmts"])
+        ok = builds_err and not builds_ok and any(r_ in region for r_ in cfg.return_blocks())
         r1.instance({"check": label, "failing_edge_returns_Err": ok}, ok)
         if not ok:
             r1.violate("C03|R1|no-err|%s" % label, "the failing edge of check %s does not return Err" % label, sp.file, cfg.blocks[sb]["term"]["span"]["line"], sp.def_)
@@ -91,8 +98,15 @@ def run(ctx):
             continue
         k += 1
         # must pass through every check block before reaching a loop header again or the Ok return
-        for label, (sb, te) in found.items():
-            reach = cfg.reachable_from(bid, removed_nodes=[sb]) if bid != sb else set()
+        for label, lst in found.items():
+            sbs = [sb for sb, _ in lst]
+            if bid in sbs:
+                reach = set()
+            else:
+                # feasible paths only: the Err return of an inlined check helper does not run on into the loop
+                reach = L.feasible_reach(cfg, avoid=sbs, start_block=bid)
+                if reach is None:
+                    reach = cfg.reachable_from(bid, removed_nodes=sbs)
             targets = set(headers) | set(ok_ret)
             # the header can only be re-entered through a back edge: test successors of bid
             hit = [t for t in targets if t in reach and t != bid]
@@ -115,8 +129,8 @@ def run(ctx):
         for c, tr, v, line in tests:
             if (c.endswith("::is_err") and tr is True) or (c.endswith("::is_ok") and tr is False):
                 reason = "unparsable number"
-        for label, (sb, te) in found.items():
-            if cfg.edge_dominates(te, b):
+        for label, lst in found.items():
+            if any(cfg.edge_dominates(te, b) for _, te in lst):
                 reason = label + " violated"
         other = []
         for sb, (d, te) in checks.items():
